@@ -427,6 +427,15 @@ class FromArgs(Generic[T]):
         return bool(self._i_to_arg)
 
     def to_tuple(self) -> Tuple[T, ...]:
+        # Every position has to be filled, otherwise the args which were added
+        # with a position override after a gap would be out of range
+        if self._i_to_arg and (
+            min(self._i_to_arg) != 0 or max(self._i_to_arg) != len(self._i_to_arg) - 1
+        ):
+            raise ValueError(
+                "The position overrides leave gaps, only positions "
+                f"{sorted(self._i_to_arg)} are filled"
+            )
         return tuple(v for _, v, in sorted(self._i_to_arg.items()))
 
     def add(self, arg: T, index_override: Optional[int]) -> int:
